@@ -139,7 +139,13 @@ class ModbusRtuFramer(ModbusFramer):
         """
         if len(self._buffer) > self._hsize:
             if not self._header:
-                self.populateHeader()
+                try:
+                    self.populateHeader()
+                except (IndexError, struct.error):
+                    # the bytes the frame size is computed from have not
+                    # all arrived yet
+                    self._header = {}
+                    return False
 
             return self._header and len(self._buffer) >= self._header['len']
         else:
